@@ -2,6 +2,7 @@ SPECIFICATION Spec
 CONSTANTS
   D = 64
   SinglePassWhenNested = TRUE
+  Clips = FALSE
   MaxChain = 1
   N = 3
   Kinds <- KindsAll
